@@ -266,6 +266,46 @@ func vfRunC19C(ctx *vfCtx, c vfCaseC19C) {
 			ctx.Failf("C19/client-reports-other-extensions", "after %s the client reports %q as (%q,%v), the server advertised %v", desc, n, dv, ok, want)
 		}
 	}
+	// every extension the os-backed server advertises is served - as itself (seed C19-e): each advertised name
+	// is exercised through the client and judged by its effect on the served directory
+	if c.Kind == "os" {
+		os.WriteFile(root+"/pr-old", []byte("p"), 0o644)
+		os.WriteFile(root+"/hl-old", []byte("h"), 0o644)
+		exists := func(n string) bool { _, err := os.Lstat(root + "/" + n); return err == nil }
+		ds, rs := vfCall(func() (string, error) {
+			done := map[string]bool{}
+			for _, w := range want {
+				if done[w[0]] {
+					continue // a name may be configured (and advertised) twice
+				}
+				done[w[0]] = true
+				switch w[0] {
+				case vfExtPosixRename:
+					if err := cl.PosixRename("pr-old", "pr-new"); err != nil || exists("pr-old") || !exists("pr-new") {
+						return fmt.Sprintf("posix-rename: err=%v, old name exists=%v, new name exists=%v", err, exists("pr-old"), exists("pr-new")), nil
+					}
+				case vfExtHardlink:
+					if err := cl.Link("hl-old", "hl-new"); err != nil || !exists("hl-old") || !exists("hl-new") {
+						return fmt.Sprintf("hardlink: err=%v, old name exists=%v, new name exists=%v", err, exists("hl-old"), exists("hl-new")), nil
+					}
+				case vfExtStatVFS:
+					if v, err := cl.StatVFS("."); err != nil || v == nil || v.Namemax == 0 {
+						return fmt.Sprintf("statvfs: %v %v", v, err), nil
+					}
+				}
+			}
+			return "", nil
+		})
+		if !vfAwait(ctx, ds, "advertised extensions") {
+			ctx.Failf("C19/advertised-not-served/hang", "a call of an advertised extension never returns\n%s", vfDumpRelevant())
+		}
+		if rs.Panic != nil {
+			ctx.Failf("panic/"+vfPanicSite([]byte(rs.Stack)), "%v\n%s", rs.Panic, vfTrimStack([]byte(rs.Stack)))
+		}
+		if rs.Val != "" {
+			ctx.Failf("C19/advertised-not-served-as-itself", "after %s the os-backed server advertises %v but %s", desc, want, rs.Val)
+		}
+	}
 	dc, _ := vfCall(func() (string, error) { return "", cl.Close() })
 	vfAwait(ctx, dc, "Close")
 	if !vfAwait(ctx, srv.done, "Serve") {
